@@ -140,11 +140,15 @@ class Lrn03F(Lrn03):
     def finish(self):
         self.finished += 1
         envs = sorted({e for _, e in self.calls})
-        CobaContext.logger.log(f"{FINISH_MARK}L{self.l} used on {['E%d' % e for e in envs]} taught {len(self.hist)} call {self.finished}>")
+        msg = None
         if self._buffer is None or self.broken:
-            raise Fault03(f'{FINISH_BROKEN}L{self.l}: finish() of a learner whose evaluation was cut short>')
-        for e in envs:
-            if e in self._finish_faults: raise Fault03(self._finish_faults[e])
+            msg = f'{FINISH_BROKEN}L{self.l}: finish() of a learner whose evaluation was cut short>'
+        else:
+            msg = next((self._finish_faults[e] for e in envs if e in self._finish_faults), None)
+        # the observable trace of the call (a plain log line; it says whether the call is about to raise, not with what)
+        CobaContext.logger.log(f"{FINISH_MARK}L{self.l} used on {'+'.join('E%d' % e for e in envs) or 'nothing'} taught {len(self.hist)} "
+                               f"call {self.finished} {'raises' if msg else 'ok'}>")
+        if msg: raise Fault03(msg)
         self._buffer = None
 
 
